@@ -142,13 +142,240 @@ def run_metadata(ctx):
         ctx.extra["%s_pair_mutations_run" % kind] = take
 
 
+# ------------------------------------------------------------------ registration / configuration endpoints
+VALID_JWKS = {"keys": [{"kty": "oct", "k": "c2VjcmV0LWtleS1vbmUtMDAwMDAwMDAwMDAwMDAwMA", "kid": "k1"}]}
+SERVERS = [
+    {},
+    {"scopes_supported": ["a", "b", "openid"], "response_types_supported": ["code", "token"],
+     "grant_types_supported": ["authorization_code", "refresh_token"],
+     "token_endpoint_auth_methods_supported": ["client_secret_basic", "none"]},
+    {"scopes_supported": ["a"], "grant_types_supported": ["implicit"], "response_types_supported": ["token"],
+     "token_endpoint_auth_methods_supported": ["client_secret_post"]},
+]
+URI_POOL = [None, "", "https://c.example/x", "http://c.example/x", "https://c.example/x#frag", "/relative", "c.example/x",
+            "https:///nohost", "mailto:a@b", "app://callback", "https://c.example/x?y=1", "HTTPS://C.example"]
+
+
+def make_reg_server(store, server_md, jwks_ok_holder):
+    from authlib.oauth2.rfc7591 import ClientRegistrationEndpoint
+    from authlib.oauth2.rfc7592 import ClientConfigurationEndpoint
+    from impl import oauth2_server as S
+    srv = S.Server(store)
+    store.saved = []
+    store.reg = {"cid1": {"client_secret": "sec1", "metadata": {"client_name": "old"}}}
+
+    class Reg(ClientRegistrationEndpoint):
+        def authenticate_token(self, request):
+            return request.headers.get("Authorization") == "Bearer init-token"
+
+        def get_server_metadata(self):
+            return server_md
+
+        def save_client(self, client_info, client_metadata, request):
+            store.saved.append(("save_client", dict(client_metadata)))
+            return object()
+
+        def resolve_public_key(self, request):
+            return None
+
+    class C:
+        def __init__(self, cid):
+            self.cid = cid
+            self.client_info = {"client_id": cid, "client_secret": store.reg[cid]["client_secret"]}
+            self.client_metadata = dict(store.reg[cid]["metadata"])
+
+        def get_client_id(self):
+            return self.cid
+
+        def check_client_secret(self, s):
+            return s == store.reg[self.cid]["client_secret"]
+
+    class Conf(ClientConfigurationEndpoint):
+        def authenticate_token(self, request):
+            return request.headers.get("Authorization", "").startswith("Bearer reg-token")
+
+        def authenticate_client(self, request):
+            cid = request.uri.rsplit("/", 1)[-1]
+            return C(cid) if cid in store.reg else None
+
+        def revoke_access_token(self, request, token):
+            store.saved.append(("revoke_access_token", None))
+
+        def check_permission(self, client, request):
+            return request.headers.get("Authorization") == "Bearer reg-token-" + client.cid
+
+        def update_client(self, client, client_metadata, request):
+            store.saved.append(("update_client", dict(client_metadata)))
+            store.reg[client.cid]["metadata"] = dict(client_metadata)
+            return C(client.cid)
+
+        def delete_client(self, client, request):
+            store.saved.append(("delete_client", client.cid))
+
+        def generate_client_registration_info(self, client, request):
+            return {"registration_client_uri": request.uri, "registration_access_token": "reg-token-" + client.cid}
+
+        def get_server_metadata(self):
+            return server_md
+
+    srv.register_endpoint(Reg)
+    srv.register_endpoint(Conf)
+    return srv
+
+
+def gen_payload(rng):
+    p = {}
+    if rng.random() < 0.8:
+        good = ["https://c.example/x", "http://c.example/x", "app://callback", "https://c.example/x?y=1", "HTTPS://C.example"]
+        p["redirect_uris"] = [rng.choice(good) if rng.random() < 0.8 else rng.choice(URI_POOL) for _ in range(rng.choice([0, 1, 1, 2]))]
+    for k in ("client_uri", "logo_uri", "tos_uri", "policy_uri", "jwks_uri"):
+        r = rng.random()
+        if r < 0.12:
+            p[k] = rng.choice(URI_POOL)
+        elif r < 0.45:
+            p[k] = "https://c.example/" + k
+    if rng.random() < 0.6:
+        p["scope"] = rng.choice(["a", "a", "a", "a b", "b a", "", "a z", "openid", "  a  "])
+    if rng.random() < 0.6:
+        p["grant_types"] = rng.choice([["authorization_code"], ["authorization_code"], ["refresh_token", "authorization_code"], ["implicit"], [], ["password"]])
+    if rng.random() < 0.6:
+        p["response_types"] = rng.choice([["code"], ["code"], ["token"], ["code", "token"], [], ["id_token"]])
+    if rng.random() < 0.6:
+        p["token_endpoint_auth_method"] = rng.choice(["client_secret_basic", "client_secret_basic", "none", "none", "client_secret_post", "private_key_jwt", ""])
+    if rng.random() < 0.3:
+        p["contacts"] = rng.choice([["a@b"], "a@b", []])
+    if rng.random() < 0.25:
+        p["jwks"] = rng.choice([VALID_JWKS, {"keys": []}, {"nokeys": 1}, "garbage"])
+    if rng.random() < 0.5:
+        p["client_name"] = "n"
+    if rng.random() < 0.2:
+        p["unregistered_member"] = "x"
+    return p
+
+
+def jwks_valid(v):
+    from authlib.jose import JsonWebKey
+    try:
+        return bool(JsonWebKey.import_key_set(v))
+    except Exception:
+        return False
+
+
+def outcome(resp, store):
+    status, body, headers = resp
+    saved = [e for e in store.saved if e[0] in ("save_client", "update_client")]
+    if saved:
+        return ["stored", saved[-1][1]]
+    return ["refused", status, body.get("error") if isinstance(body, dict) else None]
+
+
+def run_registration(ctx):
+    from impl import oauth2_server as S
+    m = ctx.model
+    rng = ctx.rng
+    n = 1200 if ctx.tier == "quick" else 20000
+    for i in range(n):
+        server_md = rng.choice(SERVERS)
+        payload = gen_payload(rng)
+        jok = jwks_valid(payload["jwks"]) if "jwks" in payload else True
+        store = S.Store()
+        srv = make_reg_server(store, server_md, None)
+        mode = rng.choice(["register", "register", "update"])
+        if mode == "register":
+            tok = rng.random() < 0.85
+            if rng.random() < 0.04:
+                payload = {}
+            hdr = {"Authorization": "Bearer init-token" if tok else rng.choice(["Bearer wrong", ""])}
+            try:
+                resp = srv.create_endpoint_response("client_registration", S.HReq("POST", "https://as.example/register", None, hdr, json.dumps(payload)))
+                got = outcome(resp, store)
+            except Exception as e:  # noqa
+                got = ["escapes", type(e).__name__]
+            mod = m.call("register", {"token_valid": tok, "server": server_md, "jwks_ok": jok, "payload": payload})
+            case = {"mode": mode, "token": tok, "server": server_md, "payload": payload}
+        else:
+            tok = rng.random() < 0.9
+            target = rng.choice(["cid1", "cid1", "cid1", "ghost"])
+            perm = rng.random() < 0.85
+            payload = dict(payload)
+            r = rng.random()
+            if r < 0.75:
+                payload["client_id"] = "cid1"
+            elif r < 0.85:
+                payload["client_id"] = rng.choice(["other", "", "cid1 "])
+            r = rng.random()
+            if r < 0.3:
+                payload["client_secret"] = "sec1"
+            elif r < 0.45:
+                payload["client_secret"] = rng.choice(["wrong", ""])
+            if rng.random() < 0.12:
+                payload[rng.choice(["registration_access_token", "registration_client_uri", "client_secret_expires_at", "client_id_issued_at"])] = rng.choice(["x", 0, None])
+            hdr = {"Authorization": ("Bearer reg-token-" + (target if perm else "someone-else")) if tok else "Bearer nope"}
+            try:
+                resp = srv.create_endpoint_response("client_configuration", S.HReq("PUT", "https://as.example/register/" + target, None, hdr, json.dumps(payload)))
+                got = outcome(resp, store)
+            except Exception as e:  # noqa
+                got = ["escapes", type(e).__name__]
+            mod = m.call("update", {"token_valid": tok, "client_exists": target == "cid1", "permitted": perm, "client_id": "cid1",
+                                    "client_secret": "sec1", "server": server_md, "jwks_ok": jok, "payload": payload})
+            case = {"mode": mode, "token": tok, "target": target, "permitted": perm, "server": server_md, "payload": payload}
+        ctx.case(case, (mode, json.dumps(server_md, sort_keys=True)[:30], json.dumps(payload, sort_keys=True), str(got[:1] + got[1:3] if got[0] != "stored" else "stored")),
+                 "%s:%s" % (mode, got[0] if got[0] != "refused" else got[2]))
+        ctx.compare(mode, case, got, mod)
+        # ---- the property on the implementation
+        if got[0] == "escapes":
+            ctx.violation("C18:%s:escapes:%s" % (mode, got[1]), "registration endpoint raised an unhandled exception", case)
+        elif got[0] == "stored":
+            md = got[1]
+            bad = []
+            for u in (md.get("redirect_uris") or []):
+                if not absolute_fragment_free(u):
+                    bad.append("redirect_uris")
+            for k in ("client_uri", "logo_uri", "tos_uri", "policy_uri", "jwks_uri"):
+                if md.get(k) and not absolute_fragment_free(md[k]):
+                    bad.append(k)
+            if server_md.get("scopes_supported") is not None and md.get("scope") and not set(md["scope"].split()) <= set(server_md["scopes_supported"]):
+                bad.append("scope")
+            if server_md.get("grant_types_supported") is not None and not set(md.get("grant_types") or ["authorization_code"]) <= set(server_md["grant_types_supported"]):
+                bad.append("grant_types")
+            if server_md.get("response_types_supported") is not None and not set(md.get("response_types") or ["code"]) <= set(server_md["response_types_supported"]):
+                bad.append("response_types")
+            if server_md.get("token_endpoint_auth_methods_supported") and md.get("token_endpoint_auth_method", "client_secret_basic") not in server_md["token_endpoint_auth_methods_supported"]:
+                bad.append("token_endpoint_auth_method")
+            if not tok:
+                bad.append("no-token")
+            if mode == "update" and (payload.get("client_id") != "cid1" or ("client_secret" in payload and payload["client_secret"] != "sec1")
+                                     or target != "cid1" or not perm or any(k in payload for k in ("registration_access_token", "registration_client_uri", "client_secret_expires_at", "client_id_issued_at"))):
+                bad.append("update-precondition")
+            for b in sorted(set(bad)):
+                ctx.violation("C18:%s:stored-invalid:%s" % (mode, b), "client metadata was stored although it violates the "
+                              "registration rules (%s)" % b, case)
+        elif store.saved and any(e[0] in ("save_client", "update_client") for e in store.saved):
+            ctx.violation("C18:%s:stored-on-refusal" % mode, "something was stored although the request was refused", case)
+
+
+def absolute_fragment_free(u):
+    """Independent reading of 'absolute and fragment-free': scheme, host, no fragment."""
+    from urllib.parse import urlsplit
+    if not isinstance(u, str) or not u:
+        return False
+    p = urlsplit(u)
+    return bool(p.scheme) and bool(p.hostname) and not p.fragment
+
+
 def run(ctx):
     ctx.rule = ("RFC 8414 and OIDC Discovery documents built from a valid base by deleting or retyping (34 values of "
                 "every JSON type, URL shapes, enumerations) every member (exhaustive) and pairs of members (seeded "
-                "sample); distinct_nontrivial = distinct (class, mutation, outcome)")
+                "sample); registration (POST) and update (PUT) requests through the real RFC 7591/7592 endpoints over "
+                "3 server configurations x generated payloads (URI shapes, supported/unsupported scope, grant and "
+                "response types, auth methods, jwks) x token/permission/client_id/secret/forbidden-member variants; "
+                "distinct_nontrivial = distinct (class, mutation, outcome) resp. (mode, server, payload, outcome)")
     run_metadata(ctx)
+    run_registration(ctx)
 
 
 def run_case(ctx, case):
+    if "mode" in case:
+        return run_registration(ctx)
     cls = AuthorizationServerMetadata if case["class"] == "as" else OpenIDProviderMetadata
     check_doc(ctx, case["class"], cls, case["doc"], "replay")
